@@ -31,12 +31,13 @@ def fsafeD (NF : List String) : FieldDecl → Bool
   | .seqOf _ item _ => fsafeD NF item
   | .setOf _ item _ => fsafeD NF item
   | .tuplePos items _ => fsafeL NF items
+  | .tupleOf item _ => fsafeD NF item
+  | .seqPos .list items _ _ => fsafeL NF items     -- (instances without surplus elements: `fwf`)
+  | .seqPos .deque _ _ _ => false
   | .mapOf kf vf _ => fsafeD NF kf && fsafeD NF vf
   | .struct c fields _ =>
     !c.inline && !NF.contains c.name && strNodup (fields.map (·.1)) && fsafeFields NF fields
   | .anyOf fs => fsafeOpt NF fs
-  | .tupleOf _ _ => false
-  | .seqPos _ _ _ _ => false
   | .seqAny _ _ => false
   | .setAny _ _ => false
   | .mapAny _ => false
@@ -89,6 +90,7 @@ def noDecV : FieldDecl → PyVal → Bool
   | .seqOf _ item _, v => (match seqLike v with | some xs => xs.all (noDecV item) | none => true)
   | .setOf _ item _, v => (match seqLike v with | some xs => xs.all (noDecV item) | none => true)
   | .tuplePos items _, v => (match seqLike v with | some xs => noDecZip items xs | none => true)
+  | .tupleOf item _, v => (match seqLike v with | some xs => xs.all (noDecV item) | none => true)
   | .mapOf kf vf _, v =>
     (match v with | .dict kvs => kvs.all (fun kv => noDecV kf kv.1 && noDecV vf kv.2) | _ => true)
   | .struct _ fields _, v =>
@@ -103,7 +105,6 @@ def noDecV : FieldDecl → PyVal → Bool
   | .noneF, _ => true
   | .enumLit _, _ => true
   | .enumCls _ _, _ => true
-  | .tupleOf _ _, _ => true
   | .seqPos _ _ _ _, _ => true
   | .seqAny _ _, _ => true
   | .setAny _ _, _ => true
@@ -139,8 +140,9 @@ def fplainInst (cls : FieldDecl) (x : PyVal) : Bool :=
 
 mutual
 def fdefD (NF : List String) : FieldDecl → List String
-  | .tupleOf item _ => "fast:tuple-index" :: fdefD NF item
-  | .seqPos _ items _ _ => "fast:positional-index" :: fdefL NF items
+  | .tupleOf item _ => fdefD NF item
+  | .seqPos .list items _ _ => "fast:untyped-raw" :: fdefL NF items     -- surplus elements are copied raw
+  | .seqPos .deque items _ _ => "fast:positional-index:deque" :: fdefL NF items
   | .seqAny _ _ => ["fast:untyped-raw"]
   | .setAny _ _ => ["fast:untyped-raw"]
   | .mapAny _ => ["fast:untyped-raw"]
@@ -249,6 +251,9 @@ def canonV : FieldDecl → PyVal → PyVal
       | w => w)
   | .setOf _ item _, v => (match v with | .set fr xs => .set fr (xs.map (canonV item)) | w => w)
   | .tuplePos items _, v => (match v with | .tuple xs => .tuple (canonZip items xs) | w => w)
+  | .tupleOf item _, v => (match v with | .tuple xs => .tuple (xs.map (canonV item)) | w => w)
+  | .seqPos .list items _ _, v => (match v with | .list xs => .list (canonZip items xs) | w => w)
+  | .seqPos .deque _ _ _, v => v
   | .mapOf kf vf _, v =>
     (match v with | .dict kvs => .dict (kvs.map fun kv => (canonV kf kv.1, canonV vf kv.2)) | w => w)
   | .struct _ fields _, v => (match v with | .inst cn attrs => .inst cn (canonFields attrs fields) | w => w)
@@ -261,8 +266,6 @@ def canonV : FieldDecl → PyVal → PyVal
   | .noneF, v => v
   | .enumLit _, v => v
   | .enumCls _ _, v => v
-  | .tupleOf _ _, v => v
-  | .seqPos _ _ _ _, v => v
   | .seqAny _ _, v => v
   | .setAny _ _, v => v
   | .mapAny _, v => v
@@ -310,6 +313,10 @@ def fwf (O : Oracles) : FieldDecl → PyVal → Bool
   | .setOf _ item _, v => (match v with | .set _ xs => xs.all (fwf O item) | _ => false)
   | .tuplePos items _, v =>
     (match v with | .tuple xs => xs.length == items.length && fwfZip O items xs | _ => false)
+  | .tupleOf item _, v => (match v with | .tuple xs => xs.all (fwf O item) | _ => false)
+  | .seqPos .list items _ _, v =>
+    (match v with | .list xs => xs.length == items.length && fwfZip O items xs | _ => false)
+  | .seqPos .deque _ _ _, _ => false
   | .mapOf kf vf _, v =>
     (match v with | .dict kvs => kvs.all (fun kv => fwf O kf kv.1 && fwf O vf kv.2) | _ => false)
   | .struct c fields defaults, v =>
@@ -319,8 +326,6 @@ def fwf (O : Oracles) : FieldDecl → PyVal → Bool
           && fwfFields O defaults attrs fields
       | _ => false)
   | .anyOf fs, v => !v.isNone && fwfAny O fs v
-  | .tupleOf _ _, _ => false
-  | .seqPos _ _ _ _, _ => false
   | .seqAny _ _, _ => false
   | .setAny _ _, _ => false
   | .mapAny _, _ => false
